@@ -32,7 +32,7 @@ ASSUMPTIONS = [
 PROBES = ["ops", "plain_ops", "show_ops", "save_ops", "show_and_save_ops", "bulk_save_ops", "bulk_save_all_invalid", "bulk_save_empty",
           "outcome_unchanged", "outcome_fixed", "outcome_failed", "preview_hsl", "preview_alpha", "preview_tuple", "preview_named",
           "plain_after_preview", "report_files_written", "tty_runs", "no_color_runs", "decoy_runs", "subprocess_phase",
-          "slot_ops", "invalid_pair_with_show", "chdir_ops", "report_after_chdir", "force_color_env_runs", "big_bulk_ops", "tmpdir_on_other_filesystem_runs", "report_blocked_ops", "save_with_report_blocked", "heavy_distinct_fix_ops", "odd_directory_names", "minimal_stdout_runs", "import_time_stdout_closed_runs", "iterator_container_ops", "non_utf8_locale_phase", "caller_source_raised_ops", "ops_from_worker_thread", "fed_back_result_ops"]
+          "slot_ops", "invalid_pair_with_show", "chdir_ops", "report_after_chdir", "force_color_env_runs", "big_bulk_ops", "tmpdir_on_other_filesystem_runs", "report_blocked_ops", "save_with_report_blocked", "heavy_distinct_fix_ops", "odd_directory_names", "minimal_stdout_runs", "import_time_stdout_closed_runs", "iterator_container_ops", "non_utf8_locale_phase", "caller_source_raised_ops", "ops_from_worker_thread", "fed_back_result_ops", "stale_report_not_utf8", "descriptor_headroom_runs", "identical_report_regenerated_runs"]
 
 QUICK = "cm_colors_quick_report.html"
 BULK = "cm_colors_bulk_report.html"
@@ -69,7 +69,11 @@ def generate(rseed, tier, idx):
            "force_color": e.choice((None, None, None, None, "FORCE_COLOR", "TTY_COMPATIBLE", "CLICOLOR_FORCE")),
            "tmp_other_fs": e.random() < 0.2,
            "stdout_kind": e.choice(("rec", "rec", "rec", "rec", "rec", "minimal")),
-           "close_import_stdout": e.random() < 0.25}
+           "close_import_stdout": e.random() < 0.25,
+           # a process that may only hold a few more file descriptors than it has when the history starts
+           "fd_headroom": e.choice((None, None, None, 8, 12)),
+           # what sits under the report names when the history starts: an old report, or a file in another encoding
+           "old_report_kind": e.choice(("html", "html", "utf16", "latin1", "binary"))}
     n = g.randint(3, 20 if tier == "thorough" else 12)
     ops = []
     nslots = 0
@@ -171,6 +175,14 @@ def generate(rseed, tier, idx):
             if op.get("show") or op.get("save"):
                 op["plain_first"] = g.random() < 0.5
             ops.append(op)
+    if g.random() < 0.1:
+        # the very same report regenerated again and again by a long-lived process (a watcher, a notebook cell re-run)
+        sv = [o for o in ops if o.get("save") and o["op"] in ("make", "bulk") and o.get("bkind") in (None, "normal")]
+        if sv:
+            rep = {k: v for k, v in g.choice(sv).items() if k not in ("thread",)}
+            rep["plain_first"] = True
+            ops.extend(copy.deepcopy(rep) for _ in range(g.randint(10, 14)))
+            env["repeated_report"] = True
     return {"prop": ID, "ops": ops, "env": env, "subproc": idx % 8 == 5, "subproc_locale": "C" if idx % 16 == 13 else None}
 
 
@@ -212,6 +224,10 @@ def execute(trace):
             ctx_model.slot_spec[sop["slot"]] = {"t": sop["t"], "b": sop["b"], "large": sop.get("large", False)}
         eq = apiops.plain_variant(apiops.fresh_equivalent(sop, ctx_model))
         o = {"plain": apiops.oracle(eq, cache)}
+        if sop.get("save") and sop["op"] in ("make", "make_on", "bulk") and sop.get("container") != "gen-raise":
+            # what a fresh process writes as the report of this very call (only consulted when the call leaves the file alone)
+            fe = {k: v for k, v in apiops.fresh_equivalent(sop, ctx_model).items() if k not in ("show", "thread")}
+            o["fresh_files"] = apiops.oracle(fe, cache).get("files", {})
         if eq["op"] in ("make",):
             o["valid"] = dec(apiops.oracle({"op": "pair", "t": eq["t"], "b": eq["b"], "large": eq.get("large", False)}, cache).get("ret", [False]))[0]
         if eq["op"] == "bulk":
@@ -229,9 +245,16 @@ def execute(trace):
                 with open(os.path.join(cwd, nme), "w") as f:
                     f.write(txt)
         if env["old_reports"]:
+            kind = env.get("old_report_kind", "html")
+            data = {"html": b"<html>old</html>", "utf16": "<html>alter Bericht \u00e4\u00f6\u00fc</html>".encode("utf-16"),
+                    "latin1": "<html>r\u00e9sum\u00e9 caf\u00e9</html>".encode("latin-1"), "binary": bytes(range(128, 256)) * 3}[kind]
             for nme in (QUICK, BULK):
-                with open(os.path.join(cwd, nme), "w") as f:
-                    f.write("<html>old</html>")
+                with open(os.path.join(cwd, nme), "wb") as f:
+                    f.write(data)
+            if kind != "html":
+                bump("stale_report_not_utf8")
+        if env.get("repeated_report"):
+            bump("identical_report_regenerated_runs")
         if env["tty"]:
             bump("tty_runs")
         if env["no_color"]:
@@ -268,10 +291,33 @@ def execute(trace):
             except OSError:
                 other_tmp = None
 
+        fd_lim = [None]
+
         def run(op):
             with apiops.Effects(root, tty=env["tty"], no_color=env["no_color"], cwd_rel=cur[0], extra_env=env.get("force_color"),
                                 tmpdir_abs=other_tmp, stdout_kind=env.get("stdout_kind", "rec")) as fx:
-                r = apiops.run_op(op, ctx)
+                old = None
+                if env.get("fd_headroom"):
+                    import resource
+
+                    if fd_lim[0] is None:
+                        # fixed at the first operation: `headroom` free slots above what the process holds then
+                        free, lim = 0, 0
+                        while free < env["fd_headroom"]:
+                            try:
+                                os.fstat(lim)
+                            except OSError:
+                                free += 1
+                            lim += 1
+                        fd_lim[0] = lim
+                        bump("descriptor_headroom_runs")
+                    old = resource.getrlimit(resource.RLIMIT_NOFILE)
+                    resource.setrlimit(resource.RLIMIT_NOFILE, (min(fd_lim[0], old[0]), old[1]))
+                try:
+                    r = apiops.run_op(op, ctx)
+                finally:
+                    if old is not None:
+                        resource.setrlimit(resource.RLIMIT_NOFILE, old)
             return r, fx.summary()
 
         def check_plain(i, op, r, fxs):
@@ -426,13 +472,25 @@ def execute(trace):
             if bad:
                 V("unexpected-file", i, op, paths=bad, allowed=sorted(allowed))
             if must:
+                # the documented report must be there afterwards: written or refreshed by this call, or - if the call left the
+                # file alone - already holding exactly what a fresh process writes for this call (a tool may skip an identical
+                # rewrite; it may not leave a stale or foreign file in place)
                 wrote = any(e[0] == "open" and e[1] == must and "w" in e[2] and e[3] == "ok" for e in fxs["io"]) or must in fxs["created"] or must in fxs["changed"]
-                if wrote:
+                ent_now = seams.snapshot(root).get(must)
+                if ent_now is None or ent_now[0] != "f":
+                    V("report-missing", i, op, expected=must)
+                elif wrote:
                     bump("report_files_written")
                     if cur[0] != "cwd":
                         bump("report_after_chdir")
                 else:
-                    V("report-missing", i, op, expected=must)
+                    want = (orc.get("fresh_files") or {}).get(must.rsplit("/", 1)[-1])
+                    if want is None:
+                        bump("untouched_report_not_judged")  # (no fresh-process report to compare with)
+                    elif base.digest(ent_now[1]) == want:
+                        bump("identical_report_left_alone")
+                    else:
+                        V("report-missing", i, op, expected=must, note="the file under the report's name was not touched and is not what a fresh process writes")
         # ---- real-interpreter phase under a NON-UTF-8 locale: save_report operations (no in-process seam can change
         #      the interpreter's locale encoding); results must equal the pristine plain results, the documented
         #      report must appear, nothing else
